@@ -129,6 +129,13 @@ func c10Gen(c *core.C, errorCase bool) *c10WS {
 		}
 		earlier = append(earlier, refs)
 	}
+	// sometimes a local module ships a file at a well-known-type path: importing that path is then an
+	// ordinary dependency on that module (and its copy, not the built-in one, is compiled)
+	if !errorCase && r.IntN(5) == 0 {
+		wm := &c10Mod{ID: "lwkt", Local: true, Dir: "mods/wkt", Name: "buf.test/acme/wkt"}
+		wm.Files = []*c10File{{Path: "google/protobuf/timestamp.proto", Pkg: "google.protobuf", Msg: "Timestamp", Marker: "local_wkt"}}
+		ws.Locals = append(ws.Locals, wm)
+	}
 	for k := 0; k < nLocals; k++ {
 		pkg := fmt.Sprintf("l%d", k)
 		m := &c10Mod{ID: pkg, Local: true, Dir: []string{"mods/" + pkg, pkg, "proto/" + pkg + "/src"}[r.IntN(3)]}
